@@ -14,8 +14,10 @@ Binding (fault enumeration, harness/lifecycle.py):
                 second cycle; then one run per k = 0..N calls task.cancel() after exactly k
                 iterations (k = 0: before the task's first step); for every k a second cancel()
                 after each later iteration until the task is done (it lands in the clean-up), and
-                for the configurations with three read-write terminals [thorough: all gating
-                configurations] a third one after each iteration later still.
+                for k = end of the second cycle [thorough: every k of the gating configurations]
+                a third one after each iteration later still.  Silent-terminal configurations:
+                each terminal in turn (read-only ones and writers) stops answering at the moment
+                of the first cancel(), so the clean-up talks to a terminal that is gone.
                 fast: register_sync_group is the real method; ec.programs is a real kernel
                 PROG_ARRAY and sg.load() really loads the group's program when the kernel is
                 usable (else a dictionary behind lookup/update/delete_elem and a fake load).
@@ -58,11 +60,30 @@ def async_configs(quick):
     return out
 
 
-def deep_configs(quick):
-    cfgs = async_configs(quick)
-    if not quick:
-        return cfgs
-    return [c for c in cfgs if sum(c["rw"]) == 3]
+def silent_configs(quick):
+    """the environment misbehaves: one terminal - each in turn, read-only ones and writers - drops
+    off the segment at the moment of the first cancel() (a usual reason to cancel) and answers
+    nothing during the clean-up"""
+    out = []
+    base = [c for c in async_configs(quick) if c["nterm"] == 3][:2 if quick else None] \
+        + [c for c in async_configs(quick) if c["nterm"] == 2 and c["delay"] > 0]
+    for c in base:
+        for i in range(c["nterm"]):
+            out.append(dict(c, silent=i))
+    return out
+
+
+def depth_rule(quick, cfg):
+    """how many cancel() calls per run, as a function of the iteration k of the first one and
+    of n = the last k: two everywhere (the second lands in the clean-up) - for silent-terminal
+    configurations in quick one -, and three at the end of the second cycle, where the group
+    holds everything [thorough: for every k of the gating configurations without a silent
+    terminal]"""
+    if cfg.get("silent") is not None:
+        return (lambda k, n: 1) if quick else (lambda k, n: 2)
+    if not quick and cfg in async_configs(False):
+        return lambda k, n: 3
+    return lambda k, n: 3 if k == n and sum(cfg["rw"]) >= 2 else 2
 
 
 def random_config(rng):
@@ -96,6 +117,7 @@ def process_cases(quick):
 def _strip(ev):
     """what the specification looks at"""
     keep = ("t", "term", "v", "n", "idx", "outcome", "groups", "prog", "child")
+    ev = [e for e in ev if not (e["t"] == "silent" and "term" not in e)]
     return [{k: e[k] for k in keep if k in e} for e in ev]
 
 
@@ -200,8 +222,14 @@ def run_async_cases(ctx, cfg, depth):
             dict(cfg=cfg, outcome=next((e["outcome"] for e in ref["ev"] if e["t"] == "done"), None)))
         ref["cancel_iters"] = [n]
     cases = []
+    cap = 6000          # a clean-up that takes very long would square the number of sequences
 
     def explore(prefix, depth):
+        if len(cases) >= cap:
+            capped = ctx.extra.setdefault("sequences_capped", [])
+            if cfg not in capped:
+                capped.append(cfg)
+            return
         """the run with cancel() after the iterations in `prefix`, then - while the task is still
         cleaning up - one more cancel() after every later iteration, down to `depth` cancels"""
         r = L.run_async_kind(cfg, tuple(prefix))
@@ -213,7 +241,7 @@ def run_async_cases(ctx, cfg, depth):
                 explore(prefix + [j], depth)
 
     for k in range(n + 1):
-        explore([k], depth(k))
+        explore([k], depth(k, n))
     return ref, cases
 
 
@@ -270,12 +298,10 @@ def run(ctx):
         ctx.extra["gating_configs"] = len(configs)
         ctx.extra["seeded_configs"] = n_extra
         configs += [random_config(ctx.rng) for _ in range(n_extra)]
-        for ci, cfg in enumerate(configs):
-            # how many cancel() calls per run: two everywhere (the second one lands in the
-            # clean-up); three for the configurations with the most read-write terminals of each
-            # kind [thorough: for every gating configuration]
-            deep = cfg in deep_configs(ctx.quick)
-            ref, cases = run_async_cases(ctx, cfg, (lambda k, deep=deep: 3 if deep else 2))
+        silent = silent_configs(ctx.quick)
+        ctx.extra["silent_terminal_configs"] = len(silent)
+        for cfg in configs + silent:
+            ref, cases = run_async_cases(ctx, cfg, depth_rule(ctx.quick, cfg))
             points.setdefault(cfg["kind"], []).append(ref["cancel_iters"][0] + 1)
             todo += cases
             if cfg["kind"] == "fast":
@@ -306,8 +332,9 @@ def run(ctx):
     ctx.rule = ("one case = one run of a real sync-group task (slow / fast: one of the listed "
                 "terminal configurations, cancel() after exactly k event-loop iterations for every "
                 "k up to the end of the second cycle x every later iteration for a second cancel() "
-                "[x every iteration later still for a third: three-writer configurations; "
-                "thorough: all gating configurations]; process: one of the named points x optional second cancel()); "
+                "[x every iteration later still for a third: at the end of the second cycle; "
+                "thorough: every k of the gating configurations]; the same with each terminal in "
+                "turn going silent at the first cancel(); process: one of the named points x optional second cancel()); "
                 "non-trivial = the group held something (an FMMU, an unanswered OPERATIONAL "
                 "request, its program-table entry, a running child) when cancel() was called")
     ctx.assumptions += [
